@@ -75,6 +75,10 @@ def region_values(smp, gene):
     return {(gi, reg): smp.coverage.region_coverage(gi, reg) for gi, g in enumerate(gene.regions) for reg in g}
 
 
+class ThirdParty(Exception):
+    pass
+
+
 def tie(ctx):
     from aldy.common import GRange, AldyException
     from aldy.profile import Profile
@@ -91,84 +95,96 @@ def tie(ctx):
     distinct = set()
     try:
         for k in range(16 if quick else 150):
-            y = gen_gene.gen_gene(r, offsets=(10000, 20000), pseudogene=r.random() < 0.6, allow_mnp=False)
-            genome = r.choice(["hg19", "hg38"])
-            gene = gen_gene.load(y, genome)
-            a = r.randint(50000, 60000)
-            cnr = GRange("20", a, a + r.randint(100, 500))
-            clean = k % 2 == 0
-            g_reads = gene_reads(r, gene, clean, 120)
-            n_reads = neutral_reads_random(r, cnr, 60, clean)
-            base = g_reads + n_reads
-            pbam = os.path.join(d, f"p{k}.bam")
-            write(pbam, base, gene)
-            regions = [{"gi": gi, "name": reg, "a": rng.start, "b": rng.end} for gi, g in enumerate(gene.regions) for reg, rng in g.items()]
-            inp = {"gene_yaml": y, "genome": genome, "cn_region": [cnr.start, cnr.end], "clean": clean}
+            n_req, n_meta, n_viol = len(reqs), len(metas), len(violations)
+            try:
+                y = gen_gene.gen_gene(r, offsets=(10000, 20000), pseudogene=r.random() < 0.6, allow_mnp=False)
+                genome = r.choice(["hg19", "hg38"])
+                gene = gen_gene.load(y, genome)
+                a = r.randint(50000, 60000)
+                cnr = GRange("20", a, a + r.randint(100, 500))
+                clean = k % 2 == 0
+                g_reads = gene_reads(r, gene, clean, 120)
+                n_reads = neutral_reads_random(r, cnr, 60, clean)
+                base = g_reads + n_reads
+                pbam = os.path.join(d, f"p{k}.bam")
+                write(pbam, base, gene)
+                regions = [{"gi": gi, "name": reg, "a": rng.start, "b": rng.end} for gi, g in enumerate(gene.regions) for reg, rng in g.items()]
+                inp = {"gene_yaml": y, "genome": genome, "cn_region": [cnr.start, cnr.end], "clean": clean}
 
-            def run(sample_reads, tag, profile_path=pbam, use_cnr=True):
-                sb = os.path.join(d, f"s{k}_{tag}.bam")
-                write(sb, sample_reads, gene)
-                try:
-                    prof = Profile.load(gene, profile_path, cnr if use_cnr else None)
-                    smp = Sample(gene, prof, sb)
-                    return region_values(smp, gene), None
-                except AldyException as e:
-                    return None, str(e)
+                def run(sample_reads, tag, profile_path=pbam, use_cnr=True):
+                    sb = os.path.join(d, f"s{k}_{tag}.bam")
+                    write(sb, sample_reads, gene)
+                    try:
+                        prof = Profile.load(gene, profile_path, cnr if use_cnr else None)
+                        smp = Sample(gene, prof, sb)
+                        return region_values(smp, gene), None
+                    except AldyException as e:
+                        return None, str(e)
+                    except Exception as e:
+                        import traceback
+                        if "indelpost" in "".join(traceback.format_tb(e.__traceback__)):
+                            # the third-party realigner gives up on this random read set (e.g. ZeroDivisionError in its contig QC)
+                            raise ThirdParty(f"{type(e).__name__} inside indelpost")
+                        raise
 
-            # (1) self profile
-            vals, err = run(base, "self")
-            metas.append(("self", inp, vals, err, regions))
-            reqs.append({"op": "normalize", "reads": [to_dread(x) for x in base], "profile_reads": [to_dread(x) for x in base],
-                         "regions": regions, "cn_region": [cnr.start, cnr.end]})
-            if clean and vals is not None:
-                bad = {kk: v for kk, v in vals.items() if abs(v - 2.0) > 1e-9 and v != 0.0}
-                if bad:
-                    violations.append({"why": f"sample normalised against its own profile reads {list(bad.items())[:3]} instead of 2.0", "input": inp, "signature": "c07:self_not_two"})
-            # (2) k-fold duplication
-            kk = r.randint(2, 5)
-            vals_k, err_k = run(base * kk, "k")
-            metas.append(("kfold", inp, vals_k, err_k, regions))
-            reqs.append({"op": "normalize", "reads": [to_dread(x) for x in base * kk], "profile_reads": [to_dread(x) for x in base],
-                         "regions": regions, "cn_region": [cnr.start, cnr.end]})
-            if vals is not None and vals_k is not None:
-                bad = [kk2 for kk2 in vals if abs(vals[kk2] - vals_k[kk2]) > 1e-9]
-                if bad:
-                    violations.append({"why": f"{kk}-fold duplicated sample reads {vals_k[bad[0]]} in region {bad[0]}, the original reads {vals[bad[0]]}", "input": inp, "signature": "c07:not_scale_invariant"})
-            # (3) gene reads only multiplied
-            vals_g, err_g = run(g_reads * kk + n_reads, "g")
-            metas.append(("gene_only", inp, vals_g, err_g, regions))
-            reqs.append({"op": "normalize", "reads": [to_dread(x) for x in g_reads * kk + n_reads], "profile_reads": [to_dread(x) for x in base],
-                         "regions": regions, "cn_region": [cnr.start, cnr.end]})
-            if vals is not None and vals_g is not None:
-                # gene reads may reach into the neutral window only by construction error; regions far apart here
-                bad = [kk2 for kk2 in vals if abs(vals[kk2] * kk - vals_g[kk2]) > 1e-9]
-                if bad:
-                    violations.append({"why": f"gene reads x{kk}: region {bad[0]} reads {vals_g[bad[0]]}, expected {vals[bad[0]] * kk}", "input": inp, "signature": "c07:not_linear"})
-            # (4) empty neutral region
-            vals_e, err_e = run(g_reads, "e")
-            metas.append(("empty_neutral", inp, vals_e, err_e, regions))
-            reqs.append({"op": "normalize", "reads": [to_dread(x) for x in g_reads], "profile_reads": [to_dread(x) for x in base],
-                         "regions": regions, "cn_region": [cnr.start, cnr.end]})
-            if vals_e is not None or "has no reads" not in (err_e or ""):
-                violations.append({"why": f"sample without reads in the neutral region is not rejected ({err_e})", "input": inp, "signature": "c07:empty_neutral_accepted"})
-            # (5) profile written to YAML and loaded again
-            regs = {(gene.name, reg, gi): rng for gi, g in enumerate(gene.regions) for reg, rng in g.items()}
-            data = Profile.get_sam_profile_data(pbam, regions=regs, genome=genome, cn_region=cnr)
-            # one path for every sample of the run, as when a profile is regenerated in place: the file must be re-read
-            ypath = os.path.join(d, "profile.yml")
-            with open(ypath, "w") as f:
-                f.write(yaml.dump(data, default_flow_style=None))
-            fam["profile_yml"]["cases"] += 1
-            vals_y, err_y = run(base * kk, "y", profile_path=ypath, use_cnr=False)
-            if (vals_y is None) != (vals_k is None) or (vals_y is not None and any(abs(vals_y[q] - vals_k[q]) > 1e-9 for q in vals_y)):
-                fam["profile_yml"]["disagreements"].append({"why": f"profile loaded from the written YAML gives {vals_y and list(vals_y.items())[:2]} (err {err_y}), from the BAM {vals_k and list(vals_k.items())[:2]}", "input": inp})
-                violations.append({"why": f"a sample normalised against the profile file just written for it (same path as the previous sample's profile) reads {vals_y and list(vals_y.items())[:2]} (err {err_y}), against the same profile taken from the BAM {vals_k and list(vals_k.items())[:2]}",
-                                   "input": inp, "signature": "c07:profile_file_not_reread"})
-            stats["read_sets"] += 1
-            stats["reads"] += len(base)
-            distinct.add(lib.canon_hash([y, cnr.start, cnr.end]))
-            if len(samples) < 2 and vals is not None:
-                samples.append({"clean": clean, "cn_region": [cnr.start, cnr.end], "self_profile_values": {f"{a_}:{b_}": v for (a_, b_), v in list(vals.items())[:6]}, "k": kk})
+                # (1) self profile
+                vals, err = run(base, "self")
+                metas.append(("self", inp, vals, err, regions))
+                reqs.append({"op": "normalize", "reads": [to_dread(x) for x in base], "profile_reads": [to_dread(x) for x in base],
+                             "regions": regions, "cn_region": [cnr.start, cnr.end]})
+                if clean and vals is not None:
+                    bad = {kk: v for kk, v in vals.items() if abs(v - 2.0) > 1e-9 and v != 0.0}
+                    if bad:
+                        violations.append({"why": f"sample normalised against its own profile reads {list(bad.items())[:3]} instead of 2.0", "input": inp, "signature": "c07:self_not_two"})
+                # (2) k-fold duplication
+                kk = r.randint(2, 5)
+                vals_k, err_k = run(base * kk, "k")
+                metas.append(("kfold", inp, vals_k, err_k, regions))
+                reqs.append({"op": "normalize", "reads": [to_dread(x) for x in base * kk], "profile_reads": [to_dread(x) for x in base],
+                             "regions": regions, "cn_region": [cnr.start, cnr.end]})
+                if vals is not None and vals_k is not None:
+                    bad = [kk2 for kk2 in vals if abs(vals[kk2] - vals_k[kk2]) > 1e-9]
+                    if bad:
+                        violations.append({"why": f"{kk}-fold duplicated sample reads {vals_k[bad[0]]} in region {bad[0]}, the original reads {vals[bad[0]]}", "input": inp, "signature": "c07:not_scale_invariant"})
+                # (3) gene reads only multiplied
+                vals_g, err_g = run(g_reads * kk + n_reads, "g")
+                metas.append(("gene_only", inp, vals_g, err_g, regions))
+                reqs.append({"op": "normalize", "reads": [to_dread(x) for x in g_reads * kk + n_reads], "profile_reads": [to_dread(x) for x in base],
+                             "regions": regions, "cn_region": [cnr.start, cnr.end]})
+                if vals is not None and vals_g is not None:
+                    # gene reads may reach into the neutral window only by construction error; regions far apart here
+                    bad = [kk2 for kk2 in vals if abs(vals[kk2] * kk - vals_g[kk2]) > 1e-9]
+                    if bad:
+                        violations.append({"why": f"gene reads x{kk}: region {bad[0]} reads {vals_g[bad[0]]}, expected {vals[bad[0]] * kk}", "input": inp, "signature": "c07:not_linear"})
+                # (4) empty neutral region
+                vals_e, err_e = run(g_reads, "e")
+                metas.append(("empty_neutral", inp, vals_e, err_e, regions))
+                reqs.append({"op": "normalize", "reads": [to_dread(x) for x in g_reads], "profile_reads": [to_dread(x) for x in base],
+                             "regions": regions, "cn_region": [cnr.start, cnr.end]})
+                if vals_e is not None or "has no reads" not in (err_e or ""):
+                    violations.append({"why": f"sample without reads in the neutral region is not rejected ({err_e})", "input": inp, "signature": "c07:empty_neutral_accepted"})
+                # (5) profile written to YAML and loaded again
+                regs = {(gene.name, reg, gi): rng for gi, g in enumerate(gene.regions) for reg, rng in g.items()}
+                data = Profile.get_sam_profile_data(pbam, regions=regs, genome=genome, cn_region=cnr)
+                # one path for every sample of the run, as when a profile is regenerated in place: the file must be re-read
+                ypath = os.path.join(d, "profile.yml")
+                with open(ypath, "w") as f:
+                    f.write(yaml.dump(data, default_flow_style=None))
+                fam["profile_yml"]["cases"] += 1
+                vals_y, err_y = run(base * kk, "y", profile_path=ypath, use_cnr=False)
+                if (vals_y is None) != (vals_k is None) or (vals_y is not None and any(abs(vals_y[q] - vals_k[q]) > 1e-9 for q in vals_y)):
+                    fam["profile_yml"]["disagreements"].append({"why": f"profile loaded from the written YAML gives {vals_y and list(vals_y.items())[:2]} (err {err_y}), from the BAM {vals_k and list(vals_k.items())[:2]}", "input": inp})
+                    violations.append({"why": f"a sample normalised against the profile file just written for it (same path as the previous sample's profile) reads {vals_y and list(vals_y.items())[:2]} (err {err_y}), against the same profile taken from the BAM {vals_k and list(vals_k.items())[:2]}",
+                                       "input": inp, "signature": "c07:profile_file_not_reread"})
+                stats["read_sets"] += 1
+                stats["reads"] += len(base)
+                distinct.add(lib.canon_hash([y, cnr.start, cnr.end]))
+                if len(samples) < 2 and vals is not None:
+                    samples.append({"clean": clean, "cn_region": [cnr.start, cnr.end], "self_profile_values": {f"{a_}:{b_}": v for (a_, b_), v in list(vals.items())[:6]}, "k": kk})
+            except ThirdParty as e:
+                del reqs[n_req:], metas[n_meta:], violations[n_viol:]
+                stats["read_sets_skipped_third_party_crash"] += 1
+                continue
     finally:
         shutil.rmtree(d, ignore_errors=True)
     outs = lib.driver_batch(reqs)
